@@ -30,6 +30,10 @@ from rsparse import RsError, find_items, lex, Parser
 # ---------------------------------------------------------------------------------------- types
 
 ALIASES = {"Pointer": "str", "PointerBuf": "String"}      # newtypes over str / String: modelled as their text
+# serde_json::Value / toml::Value are the model's `value` (Value.v); their Map / Table is its sorted association list
+VALUE_CTORS = [("Null", [], {"Null"}), ("VBool", ["bool"], {"Bool", "Boolean"}), ("VInt", ["Z"], {"Number", "Integer"}),
+               ("VStr", ["String"], {"String"}), ("VOther", ["N"], {"Float", "Datetime"}),
+               ("Arr", [("list", ("named", "Value"))], {"Array"}), ("Obj", ["map"], {"Object", "Table"})]
 
 
 def ty_of_tokens(toks, self_ty=None):
@@ -42,8 +46,11 @@ def ty_of_tokens(toks, self_ty=None):
     if s in ("usize", "u8", "u16", "u32", "u64", "char"): return "N"
     if s == "bool": return "bool"
     if s in ("str", "[u8]", "Vec<u8>"): return "str"
+    if s in ("Vec<Value>",): return ("list", ("named", "Value"))
+    if s in ("Map<String,Value>", "Table", "toml::Table"): return "map"
     if s == "String": return "String"
     if s in ("Cow<str>", "Cow<,str>", "implInto<Cow<str>>", "implInto<Cow<,str>>"): return "Cow"
+    if s in ("implInto<Token<>>", "implInto<Token>", "Token<>", "Token<'static>"): return ("named", "Token")
     if s == "()" or s == "": return "unit"
     if s == "Self":
         return self_ty if not isinstance(self_ty, str) else ("named", self_ty)
@@ -89,11 +96,13 @@ def split_top(s):
 
 
 def coq_ty(t):
-    if t in ("N", "bool", "Cow", "unit"): return t
+    if t in ("N", "bool", "Cow", "unit", "Z"): return t
     if t in ("str", "String"): return "str"
+    if t == "map": return "Value.obj"
     if t == "?": return "N"          # element type of an `Option` variable initialised with None: every such variable here holds a usize
     if isinstance(t, tuple):
         if t[0] == "named" and t[1] in ALIASES: return "str"
+        if t[0] == "named" and t[1] == "Value": return "Value.value"
         if t[0] == "list": return f"(list {coq_ty(t[1])})"
         if t[0] == "opt": return f"(option {coq_ty(t[1])})"
         if t[0] == "res": return f"(result {coq_ty(t[1])} {coq_ty(t[2])})"
@@ -129,6 +138,8 @@ class Ctx:
         self.nloops = 0
         self.lifted = []            # top-level loops, lambda-lifted to Fixpoints
         self.lifted_keys = []
+        self.skip_lets = set()
+        self.mut_self = False
         self.loops = []             # stack of (break_code_fn, continue_code_fn)
 
     def fresh(self, base):
@@ -136,23 +147,36 @@ class Ctx:
         return f"{base}_{self.n}"
 
 
+def place_var(e):
+    """the variable a place expression denotes: `x`, `self.0` (newtype over String), `&mut x`, `*x`"""
+    while e[0] in ("unary", "paren"):
+        e = e[2] if e[0] == "unary" else e[1]
+    if e[0] == "path" and len(e[1]) == 1: return e[1][0]
+    if e[0] == "field" and e[2] == "0" and e[1][0] == "path" and e[1][1] == ["self"]: return "self"
+    return None
+
+
 def assigned_vars(node, acc):
     """names assigned (=, +=, push/extend/insert/.. on a bare variable) anywhere inside node"""
     if isinstance(node, tuple):
         if node and node[0] == "assign":
-            lhs = node[1]
-            if lhs[0] == "path" and len(lhs[1]) == 1: acc.add(lhs[1][0])
+            v = place_var(node[1])
+            if v: acc.add(v)
+            elif node[1][0] == "index" and place_var(node[1][1]): acc.add(place_var(node[1][1]))
             else: raise RsError("assignment to a non-variable place is not supported")
         if node and node[0] == "mcall" and node[2] in MUTATORS:
-            r = node[1]
-            if r[0] == "path" and len(r[1]) == 1: acc.add(r[1][0])
+            v = place_var(node[1])
+            if v: acc.add(v)
+        if node and node[0] == "call" and node[1][0] == "path" and node[1][1][-1] in ("replace", "take") and node[2]:
+            v = place_var(node[2][0])
+            if v: acc.add(v)
         for x in node[1:]:
             assigned_vars(x, acc)
     elif isinstance(node, list):
         for x in node: assigned_vars(x, acc)
 
 
-MUTATORS = {"push", "extend_from_slice", "push_str"}
+MUTATORS = {"push", "extend_from_slice", "push_str", "insert", "insert_str", "pop", "clear", "split_off", "remove"}
 
 
 def has_jump(node):
@@ -181,6 +205,8 @@ class Unit:
             return [("None", [], None, "None"), ("Some", [ty[1]], None, "Some")]
         if isinstance(ty, tuple) and ty[0] == "res":
             return [("Ok", [ty[1]], None, "Ok"), ("Err", [ty[2]], None, "Err")]
+        if isinstance(ty, tuple) and ty[0] == "named" and ty[1] == "Value":
+            return [(c, list(ft), None, names) for c, ft, names in VALUE_CTORS]
         if isinstance(ty, tuple) and ty[0] == "named":
             n = ty[1]
             if n in self.enums:
@@ -260,6 +286,9 @@ class Emitter:
         if kind == "match":
             return self.tr(e[1], env, cx, lambda t, ty: self.tr_arms(t, ty, e[2], env, cx, k))
         if kind == "return":
+            if cx.mut_self:
+                if e[1] is None: return "Ret (self, tt)"
+                return self.tr(e[1], env, cx, lambda t, ty: "Ret (self, " + self.coerce(t, ty, cx.ret_ty[1][1]) + ")")
             if e[1] is None: return "Ret tt"
             return self.tr(e[1], env, cx, lambda t, ty: "Ret " + self.coerce(t, ty, cx.ret_ty))
         if kind == "break":
@@ -271,12 +300,20 @@ class Emitter:
         if kind == "try":
             def after(t, ty):
                 if not (isinstance(ty, tuple) and ty[0] in ("res", "opt")): raise RsError("? on a non-Result/Option")
+                # `?` on a syntactic Ok / Some / Err / None needs no match
+                if t.startswith("(Ok ") and t.endswith(")") and ty[0] == "res": return k(t[4:-1], ty[1])
+                if t.startswith("(Some ") and t.endswith(")") and ty[0] == "opt": return k(t[6:-1], ty[1])
+                if t.startswith("(Err ") and ty[0] == "res":
+                    rt_ = cx.ret_ty
+                    if not (isinstance(rt_, tuple) and rt_[0] == "res" and ty_eq(rt_[2], ty[2])): raise RsError("? with an error conversion is not supported")
+                    return "Ret " + t
+                if t == "None" and ty[0] == "opt": return "Ret None"
                 v = cx.fresh("v")
                 if ty[0] == "opt":
                     return f"match {t} with Some {v} => {k(v, ty[1])} | None => Ret None end"
                 er = cx.fresh("e")
                 rt = cx.ret_ty
-                if not (isinstance(rt, tuple) and rt[0] == "res" and rt[2] == ty[2]):
+                if not (isinstance(rt, tuple) and rt[0] == "res" and ty_eq(rt[2], ty[2])):
                     raise RsError("? with an error conversion is not supported")
                 return f"match {t} with Ok {v} => {k(v, ty[1])} | Err {er} => Ret (Err {er}) end"
             return self.tr(e[1], env, cx, after)
@@ -351,6 +388,8 @@ class Emitter:
         def after(t, ty):
             if isinstance(ty, tuple) and ty[0] == "named" and ty[1] in ALIASES and e[2] == "0":
                 return k(t, ALIASES[ty[1]])                      # Pointer(str).0 / PointerBuf(String).0
+            if is_str(ty) and e[2] == "0":
+                return k(t, ty)                                  # the newtype was already erased (e.g. after `.as_ref()`)
             if isinstance(ty, tuple) and ty[0] == "named" and ty[1] in self.u.structs:
                 for f, fty in self.u.structs[ty[1]]:
                     if f == e[2]:
@@ -378,7 +417,12 @@ class Emitter:
                 return self.tr_list([lo, hi], env, cx, lambda ts: fin(f"slice_range {bt} {ts[0][0]} {ts[1][0]}"))
             v = cx.fresh("b")
             return self.tr(idx, env, cx, lambda it, _: f"match idx_get {bt} {it} with Ret {v} => {k(v, 'N')} | Panic => Panic | OutOfFuel => OutOfFuel end")
-        return self.tr(base, env, cx, after_b)
+        def after_any(bt, bty):
+            if isinstance(bty, tuple) and bty[0] == "list" and idx[0] != "range":
+                v = cx.fresh("el")
+                return self.tr(idx, env, cx, lambda it, _: f"match list_get {bt} {it} with Ret {v} => {k(v, bty[1])} | Panic => Panic | OutOfFuel => OutOfFuel end")
+            return after_b(bt, bty)
+        return self.tr(base, env, cx, after_any)
 
     def coerce(self, t, frm, to):
         if frm == to: return t
@@ -451,10 +495,18 @@ class Emitter:
                 f"(option_map (fun t__ => mk_Token (Cow_Borrowed t__)) (nth_N (str_tokens {self.coerce(t, ty, 'str')}) {it}))", ("opt", ("named", "Token")))))
         if base == "count" and recv[0] == "mcall" and recv[2] == "tokens" and not args:           # p.tokens().count()
             return self.tr(recv[1], env, cx, lambda t, ty: k(f"(len (str_tokens {self.coerce(t, ty, 'str')}))", "N"))
+        if base == "split_off" and len(args) == 1 and place_var(recv) in env:
+            x = place_var(recv)
+            sp = cx.fresh("sp")
+            return self.tr(args[0], env, cx, lambda at, _: f"match str_split_at {x} {at} with Ret {sp} => let {x} := (fst {sp}) in {k(f'(snd {sp})', 'String')} | Panic => Panic | OutOfFuel => OutOfFuel end")
+        if base == "then_" and len(args) == 1 and args[0][0] == "closure":      # bool::then (`then` is mangled by the lexer)
+            return self.tr(recv, env, cx, lambda bt, _: f"if {bt} then {self.apply_closure(args[0], [], env, cx, lambda t, ty: k(f'(Some {t})', ('opt', ty)))} else {k('None', ('opt', '?'))}")
         def after(rt, rty):
             tyname = rty[1] if isinstance(rty, tuple) and rty[0] == "named" else None
             if tyname and (tyname, base) in self.u.fns:
                 return self.call_generated((tyname, base), [(rt, rty)], args, env, cx, k)
+            if (tyname == "PointerBuf" or rty in ("str", "String")) and ("Pointer", base) in self.u.fns and base not in ("len",):       # Deref<Target = Pointer>; erased newtype
+                return self.call_generated(("Pointer", base), [(rt, ("named", "Pointer"))], args, env, cx, k)
             # ---- Pointer::get(range): dispatch on the syntactic form of the range (PointerIndex impls)
             if tyname == "Pointer" and base == "get" and len(args) == 1 and args[0][0] == "range":
                 lo, hi, incl = args[0][1], args[0][2], args[0][3]
@@ -465,6 +517,32 @@ class Emitter:
                 parts = [x for x in (lo, hi) if x is not None]
                 return self.tr_list(parts, env, cx, lambda ts: self.call_generated_terms(
                     key, [(f"(mk_{form} {' '.join(t for t, _ in ts)})" if ts else f"mk_{form}", ("named", form)), (rt, rty)], cx, k))
+            if tyname == "Pointer" and base == "get" and len(args) == 1 and args[0][0] != "range" and ("usize", "get") in self.u.fns:
+                return self.tr(args[0], env, cx, lambda it, ity: self.call_generated_terms(("usize", "get"), [(it, "N"), (rt, rty)], cx, k))
+            # ---- primitives on Token (hand-modelled: Index::from_str is an iterator chain over chars)
+            if tyname == "Token" and base == "to_index" and not args:
+                return k(f"(prim_to_index {rt})", ("res", ("named", "Index"), ("named", "ParseIndexError")))
+            if tyname == "Token" and base == "to_string" and not args and ("Token", "decoded") in self.u.fns:
+                return self.call_generated_terms(("Token", "decoded"), [(rt, rty)], cx, lambda t, ty: k(f"(cow_text {t})", "String"))
+            # ---- Result combinators
+            if isinstance(rty, tuple) and rty[0] == "res":
+                x = cx.fresh("o")
+                if base == "map_err" and len(args) == 1:
+                    er = self.apply_closure(args[0], [(x, rty[2])], env, cx, lambda t, ty: k(f"(Err {t})", ("res", rty[1], ty)))
+                    y = cx.fresh("o")
+                    return f"match {rt} with Ok {y} => {k(f'(Ok {y})', ('res', rty[1], '?'))} | Err {x} => {er} end"
+                if base == "map" and len(args) == 1:
+                    okc = self.apply_closure(args[0], [(x, rty[1])], env, cx, lambda t, ty: k(f"(Ok {t})", ("res", ty, rty[2])))
+                    y = cx.fresh("o")
+                    return f"match {rt} with Ok {x} => {okc} | Err {y} => {k(f'(Err {y})', ('res', '?', rty[2]))} end"
+            if isinstance(rty, tuple) and rty[0] == "opt" and base == "ok_or" and len(args) == 1:
+                x = cx.fresh("o")
+                return f"match {rt} with Some {x} => {k(f'(Ok {x})', ('res', rty[1], '?'))} | None => {self.tr(args[0], env, cx, lambda t, ty: k(f'(Err {t})', ('res', rty[1], ty)))} end"
+            # ---- Map / Table and Vec<Value>
+            if rty == "map" and base in ("get", "get_mut") and len(args) == 1:
+                return self.tr(args[0], env, cx, lambda at, aty: k(f"(obj_lookup {self.coerce(at, aty, 'str')} {rt})", ("opt", ("named", "Value"))))
+            if isinstance(rty, tuple) and rty[0] == "list" and base == "len" and not args:
+                return k(f"(len {rt})", "N")
             # ---- Option combinators (closure bodies may be effectful: emitted in place)
             if isinstance(rty, tuple) and rty[0] == "opt":
                 x = cx.fresh("o")
@@ -561,8 +639,27 @@ class Emitter:
         if name in ("Vec::with_capacity", "String::with_capacity"):
             return self.tr(args[0], env, cx, lambda t, ty: k("[]", "String"))
         if name in ("Vec::new", "String::new"): return k("[]", "String")
+        if name in ("Map::new", "Table::new", "toml::Table::new", "serde_json::Map::new") and not args: return k("[]", "map")
+        if name in ("core::mem::replace", "mem::replace", "std::mem::replace") and len(args) == 2 and place_var(args[0]) in env:
+            x = place_var(args[0]); old_ = cx.fresh("old")
+            return self.tr(args[1], env, cx, lambda t, ty: f"let {old_} := {x} in let {x} := {self.coerce(t, ty, env[x][1])} in {k(old_, env[x][1])}")
+        if name in ("core::mem::take", "mem::take", "std::mem::take") and len(args) == 1 and place_var(args[0]) in env and is_str(env[place_var(args[0])][1]):
+            x = place_var(args[0]); old_ = cx.fresh("old")
+            return f"let {old_} := {x} in let {x} := [] in {k(old_, env[x][1])}"
+        if name in ("Value::Array", "Value::Object", "Value::Table", "toml::Value::Array", "toml::Value::Table") and len(args) == 1:
+            c = "Arr" if name.endswith("Array") else "Obj"
+            return self.tr(args[0], env, cx, lambda t, ty: k(f"({c} {t})", ("named", "Value")))
+        if name in ("Box::new", "once", "core::iter::once") and len(args) == 1:
+            return self.tr(args[0], env, cx, k)
+        if name == "Label::new" and len(args) == 3:
+            # diagnostic::Label::new(text, offset, len): the message text is not modelled
+            return self.tr_list(args[1:], env, cx, lambda ts: k(f"({ts[0][0]}, {ts[1][0]})", ("tuple", ["N", "N"])))
         if name in ("Token::from_encoded_unchecked",) and len(args) == 1:
-            return self.tr(args[0], env, cx, lambda t, ty: k(f"(mk_Token {self.coerce(t, ty if ty in ('str', 'String', 'Cow') else 'str', 'Cow')})", ("named", "Token")))
+            def owned_kind(ty):
+                if ty in ("str", "String", "Cow"): return ty
+                if isinstance(ty, tuple) and ty[0] == "named" and ALIASES.get(ty[1]) == "String": return "String"
+                return "str"
+            return self.tr(args[0], env, cx, lambda t, ty: k(f"(mk_Token {self.coerce(t, owned_kind(ty), 'Cow')})", ("named", "Token")))
         if name in ("Self::new_unchecked", "Pointer::new_unchecked", "PointerBuf::new_unchecked") and len(args) == 1:
             tn = cx.self_ty if segs[0] == "Self" else segs[0]
             return self.tr(args[0], env, cx, lambda t, ty: k(self.coerce(t, ty, "str"), ("named", tn) if isinstance(tn, str) else tn))
@@ -617,6 +714,14 @@ class Emitter:
             if ps.eat("if"): guard = ps.parse_expr()
             arms = [(pats, guard, ("bool", True)), ([("p_wild",)], None, ("bool", False))]
             return self.tr(scrut, env, cx, lambda t, ty: self.tr_arms(t, ty, arms, env, cx, k))
+        if name == "vec":
+            ps = Parser(list(toks) + [("punct", ")", -1)])
+            items = []
+            while not ps.at(")"):
+                items.append(ps.parse_expr())
+                if ps.at(";"): raise RsError("vec![x; n] not supported")
+                if not ps.eat(","): break
+            return self.tr_list(items, env, cx, lambda ts: k("[" + "; ".join(t for t, _ in ts) + "]", ("list", ts[0][1] if ts else "?")))
         if name in ("debug_assert", "debug_assert_eq", "debug_assert_ne"):
             raise RsError(f"{name}! changes behaviour between build profiles; not supported")
         raise RsError(f"macro {name}! not supported")
@@ -737,6 +842,10 @@ class Emitter:
                     return f"if {c} then {tinner(envx, todo[1:])} else {on_fail()}"
                 return self.ctor_match(sp, v, fty, envx, cx, lambda e3: tinner(e3, todo[1:]), on_fail)
             return f"let '({', '.join(names)}) := {st} in " + tinner(dict(env), list(zip(p[1], names, sty[1])))
+        if p[0] == "p_lit" and (is_str(sty) or sty == "Cow"):
+            e = p[1]
+            if e[0] not in ("str", "bstr"): raise RsError("non-string literal pattern on a string")
+            return f"if str_eqb {self.coerce(st, sty, 'str')} {coq_bytes(e[1])} then {on_match(env)} else {on_fail()}"
         ctors = self.u.ctor_list(sty)
         if p[0] == "p_path": segs, subs, named = p[1], [], None
         elif p[0] == "p_ctor": segs, subs, named = p[1], p[2], None
@@ -748,7 +857,7 @@ class Emitter:
         vname = segs[-1]
         target = None
         for c in ctors:
-            if c[3] == vname: target = c
+            if c[3] == vname or (isinstance(c[3], set) and vname in c[3]): target = c
         if target is None: raise RsError(f"pattern `{'::'.join(segs)}` does not name a constructor of {sty!r}")
         cname, ftys, fnames, _ = target
         # sub-patterns in field order
@@ -782,11 +891,12 @@ class Emitter:
                 c, b = self.scalar_test(sp_, v, fty, cx)
                 return f"if {c} then {inner(envx, todo[1:])} else {on_fail()}"
             return self.ctor_match(sp_, v, fty, envx, cx, lambda e3: inner(e3, todo[1:]), on_fail)
-        clauses = []
-        for c in ctors:
-            if c is target:
-                clauses.append(f"| {cname} {' '.join(binders)} => {inner(env2, nested)}".replace("  ", " "))
-            else:
+        clauses = [f"| {cname} {' '.join(binders)} => {inner(env2, nested)}".replace("  ", " ")]
+        others = [c for c in ctors if c is not target]
+        if len(others) >= 2:
+            clauses.append(f"| _ => {on_fail()}")
+        else:
+            for c in others:
                 clauses.append(f"| {c[0]} {' '.join('_' for _ in c[1])} => {on_fail()}".replace("  =>", " =>"))
         return f"match {st} with " + " ".join(clauses) + " end"
 
@@ -805,6 +915,8 @@ class Emitter:
         if kind == "let":
             pat, init = s[1], s[2]
             if isinstance(pat, list): raise RsError("or-pattern in let")
+            if pat[0] == "p_bind" and pat[1] in cx.skip_lets:
+                return cont(env)          # a local that only feeds message texts (configured per function)
             while pat[0] == "p_ref": pat = pat[1]
             if init is None: raise RsError("let without initialiser")
             if pat[0] == "p_bind":
@@ -827,8 +939,8 @@ class Emitter:
             raise RsError(f"let pattern {pat[0]} not supported")
         if kind == "assign":
             lhs, op, rhs = s[1], s[2], s[3]
-            if not (lhs[0] == "path" and len(lhs[1]) == 1 and lhs[1][0] in env): raise RsError("assignment to an unknown place")
-            x = lhs[1][0]
+            x = place_var(lhs)
+            if not (x and x in env): raise RsError("assignment to an unknown place")
             if op == "=":
                 return self.tr(rhs, env, cx, lambda t, ty: f"let {x} := {self.coerce(t, ty, env[x][1])} in {cont(env)}")
             if op == "+=":
@@ -838,10 +950,30 @@ class Emitter:
             raise RsError(f"assignment operator {op} not supported")
         if kind == "expr":
             e = s[1]
-            if e[0] == "mcall" and e[2] in MUTATORS and e[1][0] == "path" and len(e[1][1]) == 1 and e[1][1][0] in env:
-                x = e[1][1][0]
+            if e[0] == "mcall" and e[2] in MUTATORS and place_var(e[1]) in env and e[2] not in ("split_off",):
+                x = place_var(e[1])
+                if e[2] == "push" and is_str(env[x][1]):
+                    return self.tr(e[3][0], env, cx, lambda t, ty: f"let {x} := ({x} ++ [{t}]) in {cont(env)}")
+                if e[2] == "push_str":
+                    return self.tr(e[3][0], env, cx, lambda t, ty: f"let {x} := ({x} ++ {self.coerce(t, ty, 'str')}) in {cont(env)}")
+                if e[2] == "insert" and is_str(env[x][1]) and len(e[3]) == 2:          # String::insert(idx, ch)
+                    v = cx.fresh("ins")
+                    return self.tr_list(e[3], env, cx, lambda ts: f"match str_insert {x} {ts[0][0]} [{ts[1][0]}] with Ret {v} => let {x} := {v} in {cont(env)} | Panic => Panic | OutOfFuel => OutOfFuel end")
+                if e[2] == "insert_str" and len(e[3]) == 2:
+                    v = cx.fresh("ins")
+                    return self.tr_list(e[3], env, cx, lambda ts: f"match str_insert {x} {ts[0][0]} {self.coerce(ts[1][0], ts[1][1], 'str')} with Ret {v} => let {x} := {v} in {cont(env)} | Panic => Panic | OutOfFuel => OutOfFuel end")
+                if e[2] == "pop" and not e[3]:                                           # String::pop(), result dropped
+                    return f"let {x} := (removelast {x}) in {cont(env)}"
+                if e[2] == "clear" and not e[3]:
+                    return f"let {x} := [] in {cont(env)}"
+                if e[2] == "remove" and len(e[3]) == 1 and is_str(env[x][1]):            # String::remove(idx), result dropped
+                    v = cx.fresh("rm")
+                    return self.tr(e[3][0], env, cx, lambda it, _: f"match str_remove {x} {it} with Ret {v} => let {x} := {v} in {cont(env)} | Panic => Panic | OutOfFuel => OutOfFuel end")
                 if e[2] == "push":
                     return self.tr(e[3][0], env, cx, lambda t, ty: f"let {x} := ({x} ++ [{t}]) in {cont(env)}")
+                if e[2] == "insert":
+                    if env[x][1] != "map" or len(e[3]) != 2: raise RsError("insert is only supported on a Map / Table variable")
+                    return self.tr_list(e[3], env, cx, lambda ts: f"let {x} := (obj_insert {self.coerce(ts[0][0], ts[0][1], 'str')} {ts[1][0]} {x}) in {cont(env)}")
                 return self.tr(e[3][0], env, cx, lambda t, ty: f"let {x} := ({x} ++ {self.coerce(t, ty, 'str')}) in {cont(env)}")
             if e[0] in ("return", "break", "continue"):
                 return self.tr(e, env, cx, k)
@@ -859,7 +991,6 @@ class Emitter:
 
     def tr_while(self, s, env, cx, cont):
         cond, body = s[1], s[2]
-        if cond[0] == "let": raise RsError("while let not supported")
         fuel = cx.unit.fuel.get((cx.fname, len(cx.loops)), None)
         if fuel is None: raise RsError(f"no fuel expression configured for the while loop of {cx.fname}")
         lifted = not cx.loops                       # a top-level loop becomes its own Fixpoint (lambda-lifted over env)
@@ -869,7 +1000,14 @@ class Emitter:
         call = lambda: f"{name} fuel__ {' '.join(mv)}"
         after = lambda: cont(env)
         cx.loops.append((after, call))
-        body_code = self.tr(cond, env, cx, lambda ct, _: f"if {ct} then {self.tr_block(body, env, cx, lambda t, ty: call())} else {after()}")
+        if cond[0] == "let":
+            # `while let PAT = e { body }`: one iteration per successful match; a failed match leaves the loop
+            pats = cond[1] if isinstance(cond[1], list) else [cond[1]]
+            if len(pats) != 1: raise RsError("or-pattern in while let")
+            body_code = self.tr(cond[2], env, cx, lambda st, sty: self.ctor_match(
+                pats[0], st, sty, env, cx, lambda env2: self.tr_block(body, env2, cx, lambda t, ty: call()), after))
+        else:
+            body_code = self.tr(cond, env, cx, lambda ct, _: f"if {ct} then {self.tr_block(body, env, cx, lambda t, ty: call())} else {after()}")
         cx.loops.pop()
         params = " ".join(f"({v} : {coq_ty(env[v][1])})" for v in mv)
         fixbody = f"match fuel__ with O => OutOfFuel | S fuel__ => {body_code} end"
@@ -948,7 +1086,9 @@ EXTERN_STRUCTS = {      # core::ops range types, as far as the crate looks insid
     "Range": [("start", ["usize"]), ("end_", ["usize"])], "RangeFrom": [("start", ["usize"])], "RangeTo": [("end_", ["usize"])],
     "RangeInclusive": [("start", ["usize"]), ("end_", ["usize"])], "RangeToInclusive": [("end_", ["usize"])], "RangeFull": [],
 }
-EXTERN_ENUMS = {"Bound": [("Included", "tuple", [["usize"]]), ("Excluded", "tuple", [["usize"]]), ("Unbounded", "unit", [])]}
+EXTERN_ENUMS = {"Bound": [("Included", "tuple", [["usize"]]), ("Excluded", "tuple", [["usize"]]), ("Unbounded", "unit", [])],
+                # core::num::ParseIntError, by the IntErrorKind values `str::parse::<usize>` can produce on digit strings
+                "ParseIntError": [("Empty", "unit", []), ("PosOverflow", "unit", [])]}
 
 
 def gen_types(unit, names):
@@ -1026,7 +1166,7 @@ def translate(repo, groups, types, fuel):
             if f not in items_by_file:
                 src = open(os.path.join(repo, f)).read()
                 srcs[f] = src
-                items_by_file[f] = find_items(src)
+                items_by_file[f] = find_items(src, CONFIG.get("file_renames", {}).get(f))
     unit.structs.update(EXTERN_STRUCTS); unit.enums.update(EXTERN_ENUMS)
     for f, it in items_by_file.items():
         unit.structs.update(it["structs"]); unit.enums.update(it["enums"]); unit.consts.update(it["consts"])
@@ -1062,15 +1202,23 @@ def translate(repo, groups, types, fuel):
                 self_t = t.get("self_type", ("named", self_ty))
                 ret_ty = t.get("ret") or (ty_of_tokens(ret, self_ty) if ret else "unit")
                 env, binders, ptys = {}, [], []
+                mut_self = bool(t.get("mut_self"))
+                if mut_self:
+                    ret_ty = ("tuple", [self_t, ret_ty])       # a `&mut self` method returns (self afterwards, result)
                 for p, pty in params:
                     if p == "self":
                         env["self"] = ("self", self_t); binders.append(f"(self : {coq_ty(self_t)})"); ptys.append(self_t)
                     else:
                         if p[0] != "p_bind": raise RsError("parameter pattern must be a plain name")
-                        ty = ty_of_tokens(pty, self_ty)
+                        ty = t.get("param_types", {}).get(p[1]) or ty_of_tokens(pty, self_ty)
                         env[p[1]] = (p[1], ty); binders.append(f"({p[1]} : {coq_ty(ty)})"); ptys.append(ty)
                 cx = Ctx(unit, self_ty, ret_ty, coqname)
-                code = em.tr_block(body, env, cx, lambda tm, ty: "Ret " + em.coerce(tm, ty, ret_ty))
+                cx.skip_lets = set(t.get("skip_lets", []))
+                cx.mut_self = mut_self
+                if mut_self:
+                    code = em.tr_block(body, env, cx, lambda tm, ty: "Ret (self, " + em.coerce(tm, ty, ret_ty[1][1]) + ")")
+                else:
+                    code = em.tr_block(body, env, cx, lambda tm, ty: "Ret " + em.coerce(tm, ty, ret_ty))
                 lines.append(f"(* {f}:{entry['lines'][0]}-{entry['lines'][1]}  {impl + '::' if impl else ''}{name} *)")
                 lines += cx.lifted
                 lines.append(f"Definition {coqname} {' '.join(binders)} : outcome {coq_ty(ret_ty)} :=\n{pretty(code)}.")
@@ -1083,7 +1231,10 @@ def translate(repo, groups, types, fuel):
 
 CONFIG = {
     "types": ["InvalidEncoding", "EncodingError", "Token", "ParseError", "Index", "OutOfBoundsError",
-              "Range", "RangeFrom", "RangeTo", "RangeInclusive", "RangeToInclusive", "RangeFull", "Bound"],
+              "Range", "RangeFrom", "RangeTo", "RangeInclusive", "RangeToInclusive", "RangeFull", "Bound",
+              "ParseIntError", "InvalidCharacterError", "ParseIndexError", "ResolveError", "AssignError"],
+    # identifiers renamed while lexing a file (two modules both call their error type `Error`)
+    "file_renames": {"src/resolve.rs": {"Error": "ResolveError"}, "src/assign.rs": {"Error": "AssignError"}},
     # one generated file per group: coq/Generated/Scan<Group>.v  (each imports ScanTypes and the groups before it)
     "groups": [
         ("Pointer", [
@@ -1145,11 +1296,50 @@ CONFIG = {
             {"file": "src/index.rs", "impl": "Index", "name": "for_len_incl", "coq": "gen_Index_for_len_incl"},
             {"file": "src/index.rs", "impl": "Index", "name": "for_len_unchecked", "coq": "gen_Index_for_len_unchecked"},
         ]),
+        ("Buf", [
+            {"file": "src/pointer.rs", "impl": "PointerBuf", "name": "push_front", "coq": "gen_PointerBuf_push_front", "mut_self": True},
+            {"file": "src/pointer.rs", "impl": "PointerBuf", "name": "push_back", "coq": "gen_PointerBuf_push_back", "mut_self": True},
+            {"file": "src/pointer.rs", "impl": "PointerBuf", "name": "pop_back", "coq": "gen_PointerBuf_pop_back", "mut_self": True},
+            {"file": "src/pointer.rs", "impl": "PointerBuf", "name": "pop_front", "coq": "gen_PointerBuf_pop_front", "mut_self": True},
+            {"file": "src/pointer.rs", "impl": "PointerBuf", "name": "append", "coq": "gen_PointerBuf_append", "mut_self": True,
+             "param_types": {"other": ("named", "Pointer")}},
+            {"file": "src/pointer.rs", "impl": "PointerBuf", "name": "clear", "coq": "gen_PointerBuf_clear", "mut_self": True},
+        ]),
+        ("Tree", [
+            {"file": "src/resolve.rs", "impl": "ResolveError", "name": "offset", "coq": "gen_ResolveError_offset"},
+            {"file": "src/resolve.rs", "impl": "ResolveError", "name": "position", "coq": "gen_ResolveError_position"},
+            {"file": "src/resolve.rs", "impl": "ResolveError", "name": "is_unreachable", "coq": "gen_ResolveError_is_unreachable"},
+            {"file": "src/resolve.rs", "impl": "ResolveError", "name": "is_not_found", "coq": "gen_ResolveError_is_not_found"},
+            {"file": "src/resolve.rs", "impl": "ResolveError", "name": "is_out_of_bounds", "coq": "gen_ResolveError_is_out_of_bounds"},
+            {"file": "src/resolve.rs", "impl": "ResolveError", "name": "is_failed_to_parse_index", "coq": "gen_ResolveError_is_failed_to_parse_index"},
+            {"file": "src/resolve.rs", "impl": "ResolveError", "trait": "Diagnostic", "name": "labels", "coq": "gen_ResolveError_labels",
+             "param_types": {"origin": ("named", "Pointer")}, "skip_lets": ["text"], "ret": ("opt", ("tuple", ["N", "N"]))},
+            {"file": "src/resolve.rs", "impl": None, "name": "parse_index", "coq": "gen_parse_index"},
+            {"file": "src/resolve.rs", "impl": "Value", "mod": "json", "name": "resolve", "coq": "gen_json_resolve", "self_ty": "JsonValue",
+             "self_type": ("named", "Value"), "ret": ("res", ("named", "Value"), ("named", "ResolveError"))},
+            {"file": "src/resolve.rs", "impl": "Value", "mod": "json", "name": "resolve_mut", "coq": "gen_json_resolve_mut", "self_ty": "JsonValue",
+             "self_type": ("named", "Value"), "ret": ("res", ("named", "Value"), ("named", "ResolveError"))},
+            {"file": "src/resolve.rs", "impl": "Value", "mod": "toml", "name": "resolve", "coq": "gen_toml_resolve", "self_ty": "TomlValue",
+             "self_type": ("named", "Value"), "ret": ("res", ("named", "Value"), ("named", "ResolveError"))},
+            {"file": "src/resolve.rs", "impl": "Value", "mod": "toml", "name": "resolve_mut", "coq": "gen_toml_resolve_mut", "self_ty": "TomlValue",
+             "self_type": ("named", "Value"), "ret": ("res", ("named", "Value"), ("named", "ResolveError"))},
+            {"file": "src/assign.rs", "impl": "AssignError", "name": "offset", "coq": "gen_AssignError_offset"},
+            {"file": "src/assign.rs", "impl": "AssignError", "name": "position", "coq": "gen_AssignError_position"},
+            {"file": "src/assign.rs", "impl": "AssignError", "name": "is_out_of_bounds", "coq": "gen_AssignError_is_out_of_bounds"},
+            {"file": "src/assign.rs", "impl": "AssignError", "name": "is_failed_to_parse_index", "coq": "gen_AssignError_is_failed_to_parse_index"},
+            {"file": "src/assign.rs", "impl": "AssignError", "trait": "Diagnostic", "name": "labels", "coq": "gen_AssignError_labels",
+             "param_types": {"origin": ("named", "Pointer")}, "skip_lets": ["text"], "ret": ("opt", ("tuple", ["N", "N"]))},
+            {"file": "src/assign.rs", "impl": None, "mod": "json", "name": "expand", "coq": "gen_json_expand"},
+            {"file": "src/assign.rs", "impl": None, "mod": "toml", "name": "expand", "coq": "gen_toml_expand"},
+        ]),
     ],
     # which earlier groups a group's functions call (imports of the generated file)
-    "deps": {"Slice": ["PtrOps"]},
+    "deps": {"Slice": ["PtrOps"], "Buf": ["Token", "PtrOps"], "Tree": ["Token", "PtrOps", "Slice", "Index", "=GenTreePrelude"]},
     # fuel for `while` loops: (generated function, nesting depth) -> Gallina term over the parameters
-    "fuel": {("gen_validate_bytes", 0): "S (length bytes)"},
+    "fuel": {("gen_validate_bytes", 0): "S (length bytes)",
+             ("gen_json_resolve", 0): "S (length ptr)", ("gen_json_resolve_mut", 0): "S (length ptr)",
+             ("gen_toml_resolve", 0): "S (length ptr)", ("gen_toml_resolve_mut", 0): "S (length ptr)",
+             ("gen_json_expand", 0): "S (length remaining)", ("gen_toml_expand", 0): "S (length remaining)"},
 }
 
 HEADER = ("(* GENERATED by tools/rs2v.py from the current source of the crate -- do not edit.\n"
@@ -1171,7 +1361,7 @@ def main():
     files = {}
     files["ScanTypes.v"] = HEADER + "From JP Require Export Bytes GenPrelude.\nOpen Scope N_scope.\n\n" + "\n\n".join(out["Types"]) + "\n"
     for g, _ in CONFIG["groups"]:
-        imports = " ".join(f"Generated.Scan{p}" for p in ["Types"] + CONFIG["deps"].get(g, []))
+        imports = " ".join((p[1:] if p.startswith("=") else f"Generated.Scan{p}") for p in ["Types"] + CONFIG["deps"].get(g, []))
         files[f"Scan{g}.v"] = HEADER + f"From JP Require Import Bytes GenPrelude {imports}.\nOpen Scope N_scope.\n\n" + "\n\n".join(out[g]) + "\n"
     if outdir:
         for fn, text in files.items():
